@@ -25,7 +25,7 @@ ASSUMPTIONS = [
     "the '# dns_resolver' production is not a sentence of the text language ('#' starts a comment) and is exercised through the builder in C13 only",
     "comments and whitespace are not part of the token sequence",
 ]
-REQUIRED_MONITORS = ["tokens.equal", "tree.reparse", "accepted"]
+REQUIRED_MONITORS = ["tokens.equal", "tree.reparse", "accepted", "parse.independent"]
 EXHAUSTIVE_WHEN = ["every_production_chain"]
 
 
@@ -67,6 +67,21 @@ def check_case(case, ctx):
     if str(prof) != out:
         ctx.violation("tree.reparse", "str(profile) differs from as_text()", case)
         return
+    if case.get("reparse_after_edit"):
+        # state must not survive between parses: edit this profile, then parse the same text again
+        ctx.mon("parse.independent")
+        try:
+            prof.set_option("sleeptime", "31337")
+            prof.tree.children.insert(0, prof.tree.children[-1])
+            fresh = c2profile.C2Profile.from_text(text)
+            fresh_tokens = PR.tokenize(fresh.as_text())
+        except Exception as e:  # noqa: BLE001
+            ctx.violation("parse.independent", f"second parse of the same text after editing the first profile: {type(e).__name__}: {str(e)[:200]}", case)
+            return
+        if fresh_tokens != src_tokens:
+            extra = [t for t in fresh_tokens if t not in src_tokens][:6]
+            ctx.violation("parse.independent", f"a second parse of the same text, after the first profile was edited, regenerates {len(fresh_tokens)} tokens instead of {len(src_tokens)} (not in source: {extra})", case)
+            return
     nt = "{" in src_tokens or any(c in text for c in ("\\x", "\\\"", "\\\\"))
     ctx.ok(fp=text, nontrivial=nt, case={"text": text, "kind": case.get("kind")},
            classes=tuple(f"prod:{r}:{a}" for r, a in case.get("productions", [])) + (f"kind:{case.get('kind')}",))
@@ -134,7 +149,7 @@ def run_shard(shard, ctx):
             if ctx.out_of_time():
                 break
             s = PR.gen_profile(rng, max_statements=rng.choice([5, 20, 40, 80]), hostile=rng.random() < 0.7)
-            check_case({"text": PR.render(s.tokens, rng), "kind": "random", "productions": sorted(s.productions)}, ctx)
+            check_case({"text": PR.render(s.tokens, rng), "kind": "random", "productions": sorted(s.productions), "reparse_after_edit": rng.random() < 0.3}, ctx)
     elif kind == "everything":
         # one profile with every production chain concatenated
         toks = []
